@@ -64,6 +64,11 @@ func init() {
 		RunCase: func(c *CaseCtx) *CaseResult {
 			o := admissionOpts(c.Idx + 7)
 			o.WCancel, o.WFire, o.WSchedule, o.WFinish, o.WStopRel, o.WRead = 22, 16, 34, 24, 6, 1
+			if c.Idx%4 == 3 {
+				// a definition reload must not strand jobs of pipelines that remain defined either
+				o.WReload = 8
+				o.FailProb = 0
+			}
 			return histCase(c, o, 400)
 		},
 		MinDistinct: 20,
@@ -234,5 +239,81 @@ func init() {
 			return res
 		},
 		MinDistinct: 40,
+	})
+}
+
+func delayParams(idx int) drv.DelayOpts {
+	delays := []time.Duration{2 * time.Millisecond, 5 * time.Millisecond, 20 * time.Millisecond}
+	o := drv.DelayOpts{Delay: delays[idx%3], Replace: (idx/3)%3 != 0, Limit: []int{-1, 1, 2}[(idx/9)%3], Conc: 1 + (idx/27)%2, Burst: 1 + (idx/54)%8, Busy: (idx/2)%2 == 0}
+	if idx%11 == 10 {
+		o.Stress = true
+		o.Burst = 3 + idx%4
+	}
+	return o
+}
+
+func init() {
+	register(&Check{
+		ID: "C07", Level: "exploration",
+		Rule: "REAL timers (time.AfterFunc): start_delay d in {2,5,20} ms x strategy x queue_limit {nil,1,2} x concurrency {1,2} x bursts of 1-8 requests with gaps drawn from {0,d/4,d/2,0.9d,1.1d,2d} x pipeline busy or idle (blocker released 0..2d after the last request) x cancel of the waiter inside the burst; every 11th case is a 4-client stress burst with a random finisher. Oracles: Start-Created >= d and first run-enter - request issue time >= d (monotonic clocks; slowness can only enlarge them); with every pending delay handler returned (hook H2) a free slot and a waiting job never coexist at logical quiescence; replaced / canceled-while-waiting jobs never enter the runner; under replace no job starts after a newer one was accepted while it waited, and the most recently accepted job runs; plus conformance histories with logically fired delays (C07-tagged oracles of the sequential driver). A situation is (d, strategy, limit, concurrency, busy, gap pattern) / (executing, waiting) at quiescence",
+		Assumptions: []string{seqAssumption, "timer expiry is observed through hook H2 (delay-handler entered/returned); no verdict depends on a wall-clock deadline"},
+		Cases:       func(t string) int { return tierN(t, 700, 14000) + tierN(t, 500, 10000) },
+		RunCase: func(c *CaseCtx) *CaseResult {
+			nReal := tierN(c.Tier, 700, 14000)
+			if c.Idx >= nReal {
+				o := admissionOpts(c.Idx)
+				all := gen.AllClasses()
+				var delayed []gen.ConfigClass
+				for _, cl := range all {
+					if cl.Delay {
+						delayed = append(delayed, cl)
+					}
+				}
+				o.NPipes = 1
+				o.Classes = []gen.ConfigClass{delayed[c.Idx%len(delayed)]}
+				o.WSchedule, o.WFinish, o.WCancel, o.WFire, o.WStopRel, o.WRead = 36, 22, 12, 26, 3, 1
+				return histCase(c, o, 300)
+			}
+			h := drv.RunDelayCase(c.Seed, delayParams(c.Idx))
+			res := &CaseResult{Idx: c.Idx, Events: h.Events, Inconclusive: h.Inconclusive, Evaluations: h.Evaluations["C07"]}
+			for _, f := range h.Findings {
+				if f.Has("C07") {
+					res.Findings = append(res.Findings, f)
+				}
+			}
+			for s := range h.Situations["C07"] {
+				res.Situations = append(res.Situations, s)
+			}
+			if len(res.Findings) > 0 {
+				res.Inconclusive = ""
+			}
+			if len(res.Findings) > 0 || res.Inconclusive != "" || c.Idx%173 == 0 {
+				res.Sample = map[string]any{"case": c.Idx, "journal": h.Journal, "detail": h.Sample}
+			}
+			return res
+		},
+		MinDistinct: 40,
+	})
+}
+
+func init() {
+	register(&Check{
+		ID: "C16", Level: "exploration",
+		Rule: "conformance histories with definition reloads: 1-2 reloads per ~10 operations, each applying 1-2 mutation operators (add / remove / rename task, rewire depends_on, change script, task env, pipeline env, allow_failure, start_delay 0<->set, concurrency +-1, queue_limit, queue_strategy, remove and re-add the pipeline) at whatever point of their life the existing jobs are (waiting behind a busy slot, delayed with pending / expired timer, running inside a task, running and parked between two tasks through hook H1). The monitored runner records the task.Task it is actually handed; oracles: commands / task env / pipeline env / allow_failure / variables of every run-enter equal the deep copy of the definition taken when the schedule request returned; a plain-success job ran exactly the tasks of that definition, in its dependency order; a job accepted under a start delay never begins before its own delay expired, one accepted without delay is not stranded by a reload that introduces one; the job list is deep-equal across the ReplaceDefinitions call; jobs of pipelines that remain defined all end terminal; the admission model (per-job timer state, current limits) is followed after every step. A situation is the (truncated) list of mutation operators / (reloaded?, env present?) per run-enter",
+		Assumptions: []string{seqAssumption, "continue_running_tasks_after_failure is deliberately read from the current definition by the code and is not in the property's list: task failures are not injected in reload histories"},
+		Cases:       func(t string) int { return tierN(t, 1500, 36000) },
+		RunCase: func(c *CaseCtx) *CaseResult {
+			o := admissionOpts(c.Idx + 13)
+			o.NPipes = 1 + c.Idx%3
+			o.Classes = classesFor(c.Idx, o.NPipes)
+			o.FailProb = 0
+			o.MaxOps = 36
+			o.Pipe.EnvProb = 0.6
+			o.Pipe.CyclicProb = 0
+			o.Pipe.MaxTasks = 4
+			o.WSchedule, o.WFinish, o.WCancel, o.WFire, o.WStopRel, o.WRead, o.WReload = 32, 30, 6, 10, 2, 1, 12
+			return histCase(c, o, 300)
+		},
+		MinDistinct: 30,
 	})
 }
